@@ -314,7 +314,85 @@ func DriveTree(r *rec.Rec, rng *rand.Rand, run, ops int, variant string) {
 		}
 		its[i] = li
 	}
+	newIterAt := func(i, dir int, lo, hi [2]int) {
+		li := &liveIt{dir: dir}
+		call("Range", []int{i, dir, lo[0], lo[1], hi[0], hi[1]}, false, func() any { li.it = m.Range(dir, lo, hi); return 0 })
+		if dir == 1 && lo[0] != 0 {
+			li.last = lo[1]
+		} else if dir == -1 && hi[0] != 0 {
+			li.last = hi[1]
+		}
+		its[i] = li
+	}
 	var nextIter func(i int)
+	// steering by the structure (never judging): the keys that sit in inner nodes - deleting one takes the
+	// predecessor-replacement path, an iterator parked on one has to climb when it moves or re-seeks
+	innerNodes := func() []tree.VerifNode[int] {
+		var s ShapeInt
+		rec.Try(func() { s = sh.ShapeInt() })
+		var out []tree.VerifNode[int]
+		for _, nd := range s.Nodes {
+			if !nd.Leaf && nd.N > 0 {
+				out = append(out, nd)
+			}
+		}
+		return out
+	}
+	neighbours := func(k int) (pred, succ int) {
+		for c := range present {
+			if c < k && c > pred {
+				pred = c
+			}
+			if c > k && (succ == 0 || c < succ) {
+				succ = c
+			}
+		}
+		return
+	}
+	// sepDrain: the key at one slot of one inner node (the root, or a node below it) is deleted again and again - every
+	// time its predecessor is promoted into the slot - without any refill in between
+	sepDrain := func() {
+		lvl, ord, slot := rng.Intn(2), rng.Intn(16), rng.Intn(15)
+		for n := 8 + rng.Intn(8); n > 0 && !dead; n-- {
+			var cand []tree.VerifNode[int]
+			for _, nd := range innerNodes() {
+				if nd.Level == lvl {
+					cand = append(cand, nd)
+				}
+			}
+			if len(cand) == 0 {
+				return
+			}
+			nd := cand[ord%len(cand)]
+			del(nd.Keys[slot%nd.N])
+		}
+	}
+	// sepPark: an iterator is parked on a key that sits in an inner node, that key is deleted, the iterator moves on
+	sepPark := func() {
+		in := innerNodes()
+		if len(in) == 0 || coarse {
+			return
+		}
+		nd := in[rng.Intn(len(in))]
+		k := nd.Keys[rng.Intn(nd.N)]
+		pred, succ := neighbours(k)
+		id := 1 + rng.Intn(6)
+		switch {
+		case rng.Intn(2) == 0 && succ != 0:
+			newIterAt(id, -1, [2]int{0, 0}, [2]int{1, succ})
+		case pred != 0:
+			newIterAt(id, 1, [2]int{1, pred}, [2]int{0, 0})
+		default:
+			return
+		}
+		nextIter(id) // yields the neighbour, parks on k
+		if rng.Intn(3) == 0 && pred != 0 {
+			del(pred) // sometimes a neighbour goes first (the parked key moves within / between nodes)
+		}
+		del(k)
+		nextIter(id)
+		nextIter(id)
+	}
 	drainIter := func(i int) {
 		for n := 0; n < U+3 && !dead; n++ {
 			before := its[i].last
@@ -536,6 +614,12 @@ func DriveTree(r *rec.Rec, rng *rand.Rand, run, ops int, variant string) {
 			call("Last", []int{}, false, func() any { k, v := m.Last(); return []int{k, v} })
 		case c < 46 && drain == 0:
 			drain = 1 + rng.Intn(3) // start a targeted drain
+		case c < 49:
+			if cleanIter || rng.Intn(3) == 0 {
+				sepDrain()
+			} else {
+				sepPark()
+			}
 		default:
 			size := len(present)
 			wantDel := rng.Intn(100) < 50
